@@ -35,16 +35,10 @@ REPO = R.REPO
 # KNOWN: genuine defects of the real `ucg fmt`, confirmed by hand on the real binary; the named inputs are excluded so that
 # the stand-ins pass.  Delete an entry once ucg is fixed: the exclusion disappears with it.
 # (Fixed meanwhile and exercised again by every family: range with a step 8709a2c, floats with a zero fraction d1fbb1b,
-# blank comment lines 337ec97, quoted field names NULL.. / true.. / false.. e3a1334 + aa25f58.)
+# blank comment lines 337ec97, quoted field names NULL.. / true.. / false.. e3a1334 + aa25f58, groups of indented comment
+# lines 15cd3db.)
 # ---------------------------------------------------------------------------------------------------------------------
 KNOWN = [
-    dict(id='indented_comment_group',
-         input='let m = module {} => {\nlet a = 1;\n// c1\n// c2\nlet b = 2;\n};',
-         observed='first pass: `    let a = 1;\\n    \\n    // c1\\n    // c2\\nlet b = 2;` (the group stays together, indented); second pass puts an '
-                  'empty line between `// c1` and `// c2` (consecutive comment lines are only read as one group when they start in column 1), '
-                  'stable from then on.  Any group of >= 2 comment lines between the statements of a module body; the same happens to groups '
-                  'before tuple fields / list elements (`{\\n// c1\\n// c2\\n a = 1}`), which the statement does not cover',
-         clause='(3) formatting formatted text returns it unchanged (comments on lines of their own between statements -- here of a module body)'),
 ]
 KNOWN_IDS = set(k['id'] for k in KNOWN)
 
